@@ -272,12 +272,8 @@ func sweepMain(w *bufio.Writer, maxsegs, shard, nshards, heavysegs, extrasegs in
 				built = true
 			}
 			for _, p := range pos {
-				if st.cache && p.src != "" && climbs(str) == false && strings.Join(reduceSegs(str), "/") == p.src {
-					// KF-C03-1 (liveness, not confinement): Copy*(x, x) through a write-back cache whose buffer holds x
-					// never returns (reader and writer of the same memfs file).  Not generated; replayed by the check.
-					sw.skipped++
-					continue
-				}
+				// (Copy*(x, x) through a write-back cache used not to return — KF-C03-1, repaired: such positions are
+				// swept like any other; `skipped_selfcopy` stays 0)
 				sw.cases++
 				line := p.line(st.child, st.nextID, hp(str))
 				res, clean := sw.call(e, nil, line)
